@@ -235,8 +235,6 @@ Definition wf_bar (ies : list qie) : bool :=
   && all_lt 256 (selq h_barid ies) && all_lt 256 (selq h_count ies)
   && forallb (fun ns => (ns mod 50000000 =? 0) && (ns / 50000000 <? 256)) (selq h_delay ies)
   && match selq h_bad ies with [] => true | _ => false end.
-(* the clause that excludes inputs of the property (see C03_bar_delay_refuted): only a zero delay is transported correctly *)
-Definition wf_bar_nodelay (ies : list qie) : bool := wf_bar ies && forallb (fun ns => ns =? 0) (selq h_delay ies).
 
 (* ------------------------------------------------------------------ boolean monitors over captured requests *)
 Definition dqer_eqb (a b : dqer) : bool :=
